@@ -44,12 +44,148 @@ func twins(r *common.Rng, p *position.Position) []string {
 	if e != 64 {
 		res = append(res, base(int(p.HalfMoveClock), c, 64))
 	}
+	// the other side to move (legal when nobody is in check), and one square's occupant changed
+	if !p.IsInCheck(types.WHITE) && !p.IsInCheck(types.BLACK) {
+		res = append(res, poslib.SimpleFen(&p.PiecesBoard, 1-p.SideToMove, 0, 64, int(p.HalfMoveClock), int(p.Ply)/2+1))
+	}
+	for tries := 0; tries < 3; tries++ {
+		b := p.PiecesBoard
+		sq := r.Intn(64)
+		pc := b[sq]
+		if pc == types.NO_PIECE || pc == types.Piece(6) || pc == types.Piece(14) {
+			continue
+		}
+		col := int(pc) / 8
+		nt := []int{1, 2, 3, 4}[r.Intn(4)] // knight, bishop, rook, queen
+		if r.Chance(1, 4) {
+			b[sq] = types.NO_PIECE
+		} else {
+			b[sq] = types.Piece(col*8 + nt + 1)
+		}
+		fen := poslib.SimpleFen(&b, p.SideToMove, 0, 64, int(p.HalfMoveClock), int(p.Ply)/2+1)
+		if q, err := position.NewFromFen(fen); err == nil && poslib.NaiveInv(q) == "" && poslib.MaterialOK(q) {
+			res = append(res, fen)
+		}
+	}
+	return res
+}
+
+// keyAimedTwins reads the Zobrist key table of the build and, for every piece key that is zero and every
+// two piece keys that are equal (none in a sound table), builds two legal positions that differ in exactly
+// those pieces and therefore share their hash: the evaluation cache must still tell them apart, so the
+// pair is a candidate failing input for C16. Pawn keys of the back ranks are never used and are skipped.
+func keyAimedTwins() []string {
+	pieces, side, _, _ := position.VerifZobristKeys()
+	type feat struct{ s, c, t int }
+	byKey := map[uint64][]feat{}
+	for s := 0; s < 64; s++ {
+		for c := 0; c < 2; c++ {
+			for t := 0; t < 6; t++ {
+				if t == 0 && (s < 8 || s >= 56) {
+					continue
+				}
+				byKey[pieces[s][c][t]] = append(byKey[pieces[s][c][t]], feat{s, c, t})
+			}
+		}
+	}
+	build := func(a, b []feat) string {
+		// a, b: the pieces only the first / only the second position has; kings are added where needed
+		kingOf := func(fs []feat, c int) int {
+			for _, f := range fs {
+				if f.t == 5 && f.c == c {
+					return f.s
+				}
+			}
+			return -1
+		}
+		for _, wk := range []int{4, 1, 22, 46, 60, 33} {
+			for _, bk := range []int{60, 57, 38, 17, 4, 30} {
+				for _, stm := range []types.Color{types.WHITE, types.BLACK} {
+					var fens []string
+					ok := true
+					for _, fs := range [][]feat{a, b} {
+						var board [64]types.Piece
+						w, k := wk, bk
+						if x := kingOf(fs, 0); x >= 0 {
+							w = x
+						} else if kingOf(a, 0) >= 0 || kingOf(b, 0) >= 0 {
+							ok = false
+						}
+						if x := kingOf(fs, 1); x >= 0 {
+							k = x
+						} else if kingOf(a, 1) >= 0 || kingOf(b, 1) >= 0 {
+							ok = false
+						}
+						board[w] = types.Piece(6)
+						board[k] = types.Piece(14)
+						if w == k {
+							ok = false
+						}
+						for _, f := range fs {
+							if f.t != 5 {
+								if board[f.s] != types.NO_PIECE {
+									ok = false
+								}
+								board[f.s] = types.Piece(f.c*8 + f.t + 1)
+							}
+						}
+						fen := poslib.SimpleFen(&board, stm, 0, 64, 0, 1)
+						p, err := position.NewFromFen(fen)
+						if err != nil || poslib.NaiveInv(p) != "" || !poslib.MaterialOK(p) {
+							ok = false
+						}
+						fens = append(fens, fen)
+					}
+					if ok {
+						return fens[0] + " ;; " + fens[1] + " ;; " + fens[0]
+					}
+				}
+			}
+		}
+		return ""
+	}
+	var res []string
+	add := func(a, b []feat) {
+		if len(res) < 60 {
+			if c := build(a, b); c != "" {
+				res = append(res, c)
+			}
+		}
+	}
+	for s := 0; s < 64; s++ { // deterministic order
+		for c := 0; c < 2; c++ {
+			for t := 0; t < 5; t++ {
+				if t == 0 && (s < 8 || s >= 56) {
+					continue
+				}
+				if pieces[s][c][t] == 0 {
+					add([]feat{{s, c, t}}, nil)
+				}
+				for _, o := range byKey[pieces[s][c][t]] {
+					if o.s > s || (o.s == s && (o.c > c || (o.c == c && o.t > t))) {
+						add([]feat{{s, c, t}}, []feat{o})
+					}
+				}
+			}
+			for _, o := range byKey[pieces[s][c][5]] {
+				if o.t == 5 && o.c == c && o.s > s {
+					add([]feat{{s, c, 5}}, []feat{o})
+				}
+			}
+		}
+	}
+	if side == 0 {
+		res = append(res, "4k3/8/8/8/8/8/4P3/4K3 w - - 0 1 ;; 4k3/8/8/8/8/8/4P3/4K3 b - - 0 1 ;; 4k3/8/8/8/8/8/4P3/4K3 w - - 0 1")
+	}
 	return res
 }
 
 func cacheGen(r *common.Rng, n int, shard int, out *common.Out) {
 	if shard == 0 {
 		for _, s := range cacheCorpus {
+			out.Line("%s", s)
+		}
+		for _, s := range keyAimedTwins() {
 			out.Line("%s", s)
 		}
 	}
